@@ -66,6 +66,9 @@ func pfKind(t types.Type) string {
 		return ""
 	}
 	pkg, name := pfNamed(t)
+	if _, isPtr := types.Unalias(t).(*types.Pointer); isPtr && pkg == "math/big" && name == "Int" {
+		return "big" // *big.Int: its value; only fresh, never copied pointers are translated (emit_purefuns_slices.go)
+	}
 	if _, isPtr := types.Unalias(t).(*types.Pointer); !isPtr {
 		switch {
 		case pkg == "cosmossdk.io/math" && name == "Int":
@@ -77,6 +80,16 @@ func pfKind(t types.Type) string {
 		case pkg == "" && name == "error":
 			return "err"
 		}
+	}
+	if sl, ok := types.Unalias(t).Underlying().(*types.Slice); ok {
+		// a slice of plain 64-bit natives is a list of Z (value semantics: see pfAliasing in
+		// emit_purefuns_slices.go for the conditions under which Go's sharing cannot be observed)
+		if _, ptr := types.Unalias(t).(*types.Pointer); !ptr {
+			if ek := pfKind(sl.Elem()); ek == "i64" || ek == "u64" {
+				return "list"
+			}
+		}
+		return ""
 	}
 	if b, ok := types.Unalias(t).Underlying().(*types.Basic); ok {
 		if _, named := types.Unalias(t).(*types.Named); named && b.Kind() != types.Int && b.Kind() != types.Int64 && b.Kind() != types.Uint64 {
@@ -98,6 +111,12 @@ func pfKind(t types.Type) string {
 func pfCoqType(kind string) string {
 	if kind == "bool" {
 		return "bool"
+	}
+	if kind == "list" {
+		return "list Z"
+	}
+	if strings.HasSuffix(kind, "?") {
+		return "option Z"
 	}
 	return "Z"
 }
@@ -134,7 +153,12 @@ type pfFun struct {
 	params  []*types.Var        // scalar parameters, in order (blank and context parameters are dropped)
 	dropped map[int]bool        // indices of dropped parameters
 	structP map[*types.Var]bool // struct-typed parameters (fields become inputs on demand)
-	resK    []string            // result kinds
+	resK    []string            // result kinds, flattened: a struct result contributes one entry per scalar field
+	// per Go result: the field names / kinds of a struct result (nil = a scalar result); may the
+	// result be a nil Int / Dec (then its kind in resK is "int?" / "dec?": option Z)
+	resShape  [][]string
+	resFieldK [][]string
+	resNil    []bool
 	// filled by the translation
 	fixed    []pfParam
 	extra    []pfParam         // inputs discovered in the body (struct fields, store reads), in order of first use
@@ -145,6 +169,9 @@ type pfFun struct {
 	done     bool
 	busy     bool
 	errSites map[token.Pos]int
+	// the store cell (spec.cell): fields of its record, set at the first read
+	cellFields, cellKinds []string
+	cellType              types.Type
 }
 
 type pfEnv map[types.Object]string
@@ -177,6 +204,11 @@ type pfTr struct {
 	funs map[*types.Func]*pfFun
 	pfState
 	pkgVarConst map[types.Object]bool
+	// emit_purefuns_slices.go
+	structs []*pfStruct       // struct values built in function bodies (immutable once created)
+	cells   []*pfCellState    // store cell states (immutable once created)
+	cellObj types.Object      // the environment key of the store cell state
+	sliceOK map[ast.Node]bool // append / slice expressions whose result goes back to their operand
 }
 
 var pfReserved = map[string]bool{}
@@ -187,7 +219,9 @@ func init() {
 		Z N nat bool list option unit true false tt Some None Ok Err Panic obind outcome fst snd pair negb andb orb
 		P18 P36 HALF18 two64 two63 two256 two315 dec_of_int dceil dtrunc_int dtrunc_dec dround_int dec_with_prec
 		min_dec max_dec min_int max_int wrap_u64 wrap_i64 safe_math collapse to_option Unrecognised lift_ovf lift_pan
-		is_int64 is_uint64 fold_left length string app cons nil xorb eqb zlen zsum nth_z set_nth`) {
+		is_int64 is_uint64 fold_left length string app cons nil xorb eqb zlen zsum nth_z set_nth
+		for_range for_loop range_loop add64_sum add64_carry sub64_diff sub64_borrow mul64_hi mul64_lo out_of_cell
+		repeat firstn skipn rev map two128 dec_digits dec_text_len big_exp`) {
 		pfReserved[w] = true
 	}
 }
@@ -386,6 +420,11 @@ func (t *pfTr) expr(e ast.Expr, en pfEnv, hint string, k func(string) string) st
 		if kd := t.kindOf(x); (kd == "int" || kd == "dec") && len(x.Elts) == 0 {
 			return k(pfNil)
 		}
+		return t.compositeLit(x, en, k)
+	case *ast.IndexExpr:
+		return t.indexExpr(x, en, hint, k)
+	case *ast.SliceExpr:
+		return t.sliceExpr(x, en, k)
 	}
 	return t.unrec(e, "expression")
 }
@@ -526,6 +565,13 @@ func (t *pfTr) selector(x *ast.SelectorExpr, en pfEnv, k func(string) string) st
 			return k(v)
 		}
 		return t.unrec(x, "receiver field that is not a parameter")
+	}
+	// a struct value built or modified in the body (emit_purefuns_slices.go)
+	if v, ok := en[ro]; ok && strings.HasPrefix(v, pfStPrefix) {
+		if a, ok := t.structField(v, path, kd); ok {
+			return k(a)
+		}
+		return t.unrec(x, "field of a struct value")
 	}
 	// a struct-valued input (struct parameter, result of a store read)
 	if v, ok := en[ro]; ok && strings.HasPrefix(v, pfInPrefix) {
@@ -680,10 +726,27 @@ func (t *pfTr) binary(x *ast.BinaryExpr, en pfEnv, hint string, k func(string) s
 			return pfBind("if "+a+" then Ok true else "+right, v, k(v))
 		})
 	}
+	if (x.Op == token.EQL || x.Op == token.NEQ) && (lk == "int" || lk == "dec") && rk == lk {
+		// == on the structs Int{i *big.Int} / LegacyDec{i *big.Int} compares the POINTERS.  A constructor
+		// call returns a freshly allocated big.Int, which no other value points to: never equal.
+		other := x.X
+		if !t.isFreshAlloc(x.Y) {
+			if !t.isFreshAlloc(x.X) {
+				return t.unrec(x, "pointer comparison of Int / Dec values")
+			}
+			other = x.Y
+		}
+		return t.expr(other, en, "", func(string) string {
+			if x.Op == token.NEQ {
+				return k("true")
+			}
+			return k("false")
+		})
+	}
 	return t.expr(x.X, en, "", func(a string) string {
 		return t.expr(x.Y, en, "", func(b string) string {
-			if a == pfNil || b == pfNil {
-				return t.unrec(x, "operator on a nil value")
+			if pfOpaque(a) || pfOpaque(b) {
+				return t.unrec(x, "operator on a nil or untranslated value")
 			}
 			cmp := map[token.Token]string{token.EQL: "=?", token.LSS: "<?", token.GTR: ">?", token.LEQ: "<=?", token.GEQ: ">=?"}
 			switch {
@@ -829,7 +892,14 @@ func (t *pfTr) call(x *ast.CallExpr, en pfEnv, hint string, k func([]string) str
 		if b.Name() == "panic" && len(x.Args) == 1 {
 			return t.panicCall(x)
 		}
-		return t.unrec(x, "builtin")
+		return t.builtinCall(x, b.Name(), en, one)
+	}
+	// ctx.BlockHeight() on the (never re-assigned) context parameter: an input
+	if recv != nil && len(x.Args) == 0 && callee.Name() == "BlockHeight" && t.kindOf(recv) == "ctx" {
+		if id, ok := recv.(*ast.Ident); ok && t.isCtxParam(id, en) {
+			return one(t.input("ctx.BlockHeight()", "blockHeight", "i64"))
+		}
+		return t.unrec(x, "BlockHeight of a computed context")
 	}
 	// getter of an interface- or struct-valued input (a parameter such as amm.Order): a listed,
 	// argument-free method is a field of that input
@@ -855,6 +925,18 @@ func (t *pfTr) call(x *ast.CallExpr, en pfEnv, hint string, k func([]string) str
 			}
 		}
 	}
+	// *big.Int: Int.BigInt() (a fresh copy), nothing else as an expression
+	if recv != nil && t.kindOf(recv) == "int" && callee.Name() == "BigInt" && len(x.Args) == 0 {
+		return t.expr(recv, en, "", func(r string) string {
+			if pfOpaque(r) {
+				return t.unrec(x, "BigInt of a nil or untranslated Int")
+			}
+			return one(r)
+		})
+	}
+	if recv != nil && t.kindOf(recv) == "big" {
+		return t.unrec(x, "method of *big.Int")
+	}
 	// method of Int / Dec
 	if recv != nil {
 		rk := t.kindOf(recv)
@@ -868,12 +950,26 @@ func (t *pfTr) call(x *ast.CallExpr, en pfEnv, hint string, k func([]string) str
 						if r == pfNil {
 							return one("true")
 						}
+						if strings.HasPrefix(r, pfOptPrefix) {
+							return one("(match " + r[len(pfOptPrefix):] + " with Some _ => false | None => true end)")
+						}
 						return one("false")
 					}
 					for _, a := range all {
 						if a == pfNil {
 							// method call on / with a nil Int or Dec: nil *big.Int dereference
 							return "Panic"
+						}
+					}
+					for i, a := range all {
+						if strings.HasPrefix(a, pfOptPrefix) {
+							// a result of a translated function that may be nil: the dereference panics when it is
+							return t.derefOpt(x, all, i, func(all2 []string) string {
+								return t.intDecMethod(x, rk, name, all2, hint, one)
+							})
+						}
+						if pfOpaque(a) {
+							return t.unrec(x, "method call with an untranslated value")
 						}
 					}
 					pure, mon := pfDecPure, pfDecMon
@@ -972,12 +1068,40 @@ func (t *pfTr) named(x *ast.CallExpr, full string, recv ast.Expr, en pfEnv, hint
 						return "Panic"
 					}
 				}
+				for i, a := range as {
+					if strings.HasPrefix(a, pfOptPrefix) {
+						return t.derefOpt(x, as, i, func(as2 []string) string {
+							if s, ok := pfFormat(f, as2); ok {
+								return one(s)
+							}
+							return t.unrec(x, "arity")
+						})
+					}
+					if pfOpaque(a) {
+						return t.unrec(x, "constructor applied to an untranslated value")
+					}
+				}
 				if s, ok := pfFormat(f, as); ok {
 					return one(s)
 				}
 				return t.unrec(x, "arity")
 			})
 		}
+	}
+	if pkgPath == "math/bits" && recv == nil {
+		return t.bitsCall(x, name, en, k)
+	}
+	if pkgPath == "math/big" && recv == nil && name == "NewInt" && len(x.Args) == 1 && t.kindOf(x.Args[0]) == "i64" {
+		return t.expr(x.Args[0], en, hint, one) // a fresh *big.Int holding the int64
+	}
+	if pfIsMathPkg(pkgPath) && recv == nil && name == "NewIntFromBigInt" && len(x.Args) == 1 && t.kindOf(x.Args[0]) == "big" {
+		// int.go:109: nil -> Int{} (a translated *big.Int is never nil); BitLen > 256 panics "NewIntFromBigInt() out of bound"
+		return t.expr(x.Args[0], en, "", func(a string) string {
+			if pfOpaque(a) {
+				return t.unrec(x, "NewIntFromBigInt of an untranslated value")
+			}
+			return t.mop(x, "g_int_of_big "+a, hint, one)
+		})
 	}
 	if strings.HasSuffix(pkgPath, "comdex/types") && name == "DecApproxSqrt" && len(x.Args) == 1 {
 		return t.expr(x.Args[0], en, "", func(a string) string {
@@ -1042,6 +1166,15 @@ func pfDecFromStr(s string) (*big.Int, bool) {
 func (t *pfTr) genCall(x *ast.CallExpr, g *pfFun, recv ast.Expr, en pfEnv, hint string, k func([]string) string) string {
 	if g.busy {
 		return t.unrec(x, "recursive call")
+	}
+	if g.spec.cell != nil {
+		return t.unrec(x, "call of a translated function that writes a store cell")
+	}
+	for _, a := range x.Args {
+		// value semantics for slices: the callee must not change a backing array it shares with the caller
+		if pfSliceTyped(t.pkg.TypesInfo.TypeOf(a)) && g.decl != nil && pfHasSliceMutation(g.decl.Body) {
+			return t.unrec(x, "slice passed to a function that assigns slice elements or appends (aliasing)")
+		}
 	}
 	t.translateFun(g)
 	found := false
@@ -1119,7 +1252,13 @@ func (t *pfTr) genCall(x *ast.CallExpr, g *pfFun, recv ast.Expr, en pfEnv, hint 
 				}
 			}
 			if strings.HasPrefix(key, "param ") {
-				return t.unrec(x, "call of a translated function with a struct parameter")
+				// a field of a struct parameter of the callee: the field of this call's argument
+				a, ok := t.structArgField(x, g, key, ex.kind, en)
+				if !ok {
+					return t.unrec(x, "call of a translated function with a struct parameter that is not a local struct value")
+				}
+				args = append(args, a)
+				continue
 			}
 			args = append(args, t.input(pfSubstKey(key, sub), ex.name, ex.kind))
 		}
@@ -1130,24 +1269,40 @@ func (t *pfTr) genCall(x *ast.CallExpr, g *pfFun, recv ast.Expr, en pfEnv, hint 
 		if t.pure > 0 {
 			return t.unrec(x, "call in a constant initialiser")
 		}
-		n := len(g.resK)
-		names := make([]string, n)
+		goN := len(g.resShape)
+		var names, outs []string
 		var hints []string
 		if t.callHintsFor == x {
 			hints = t.callHints
 		}
-		for i := range names {
+		for i := 0; i < goN; i++ {
 			h := "r"
-			if n == 1 && hint != "" {
+			if goN == 1 && hint != "" {
 				h = hint
-			} else if len(hints) == n && hints[i] != "_" {
+			} else if len(hints) == goN && hints[i] != "_" {
 				h = hints[i]
 			}
-			names[i] = t.fresh(h)
-			t.binder[names[i]] = true
+			if g.resShape[i] == nil {
+				n := t.fresh(h)
+				t.binder[n] = true
+				names = append(names, n)
+				if g.resNil[i] {
+					n = pfOptPrefix + n // may be a nil Int / Dec: option Z
+				}
+				outs = append(outs, n)
+				continue
+			}
+			// a struct result: one component per scalar field
+			st := &pfStruct{over: map[string]string{}}
+			for _, fn := range g.resShape[i] {
+				n := t.fresh(fn)
+				names = append(names, n)
+				st.over[fn] = n
+			}
+			outs = append(outs, t.newStruct(st))
 		}
 		pat, _ := pfTuple(names)
-		return pfBind(op, pat, k(names))
+		return pfBind(op, pat, k(outs))
 	})
 }
 
@@ -1169,6 +1324,15 @@ func (t *pfTr) assignedOuter(nodes []ast.Node, lo, hi token.Pos) []types.Object 
 		case *ast.SelectorExpr:
 			if s := t.pkg.TypesInfo.Selections[l]; s != nil && s.Kind() == types.FieldVal {
 				o = s.Obj()
+			}
+		case *ast.IndexExpr:
+			// s[i] = v assigns the slice variable s (value semantics)
+			if id, ok := l.X.(*ast.Ident); ok {
+				o = t.pkg.TypesInfo.Uses[id]
+			} else if se, ok := l.X.(*ast.SelectorExpr); ok {
+				if s := t.pkg.TypesInfo.Selections[se]; s != nil && s.Kind() == types.FieldVal {
+					o = s.Obj()
+				}
 			}
 		}
 		if o == nil || seen[o] {
@@ -1266,7 +1430,7 @@ func (t *pfTr) merge(at ast.Node, nodes []ast.Node, en pfEnv, mk func(kb func(pf
 		names := make([]string, len(vars))
 		for i, v := range vars {
 			n, ok := eb[v]
-			if !ok || n == pfNil || strings.HasPrefix(n, pfInPrefix) || strings.HasPrefix(n, pfFnPrefix) {
+			if !ok || pfOpaque(n) {
 				okAll = false
 				n = "0"
 			}
@@ -1320,6 +1484,16 @@ func (t *pfTr) stmt(s ast.Stmt, en pfEnv, k func(pfEnv) string) string {
 			if t.isSafeMath(c) {
 				return t.safeMath(c, en, k)
 			}
+			if t.isEventEmit(c) {
+				// ctx.EventManager().EmitEvent(s)(..) with inert arguments: no effect on any result
+				return k(en)
+			}
+			if r, ok := t.cellWrite(c, en, k); ok {
+				return r
+			}
+			if r, ok := t.bigExpStmt(c, en, k); ok {
+				return r
+			}
 			if id, ok := c.Fun.(*ast.Ident); ok {
 				if b, ok := t.objOf(id).(*types.Builtin); ok && b.Name() == "panic" && len(c.Args) == 1 {
 					return t.panicCall(c)
@@ -1335,6 +1509,8 @@ func (t *pfTr) stmt(s ast.Stmt, en pfEnv, k func(pfEnv) string) string {
 		return t.switchStmt(x, en, k)
 	case *ast.RangeStmt:
 		return t.rangeStmt(x, en, k)
+	case *ast.ForStmt:
+		return t.forStmt(x, en, k)
 	}
 	return t.unrec(s, "statement")
 }
@@ -1374,6 +1550,8 @@ func (t *pfTr) declStmt(x *ast.DeclStmt, en pfEnv, k func(pfEnv) string) string 
 			e2 = e2.with(o, "false")
 		case "i64", "u64", "err":
 			e2 = e2.with(o, "0")
+		case "list":
+			e2 = e2.with(o, "(@nil Z)") // the nil slice: no elements (nil and empty are not told apart)
 		default:
 			return t.unrec(x, "declaration of a variable of untranslated type")
 		}
@@ -1412,7 +1590,7 @@ func (t *pfTr) bindAll(at ast.Node, lhs []*ast.Ident, rhs []ast.Expr, en pfEnv, 
 				return t.unrec(at, "unresolved assignment target")
 			}
 			v := vals[j]
-			if v == pfNil || strings.HasPrefix(v, pfFnPrefix) || strings.HasPrefix(v, pfInPrefix) {
+			if pfOpaque(v) {
 				e2 = e2.with(o, v)
 				continue
 			}
@@ -1470,9 +1648,13 @@ func (t *pfTr) assign(x *ast.AssignStmt, en pfEnv, k func(pfEnv) string) string 
 	for _, l := range x.Lhs {
 		id, ok := l.(*ast.Ident)
 		if !ok {
-			return t.unrec(x, "assignment to a non-variable")
+			// a field of a struct value / an element of a slice (emit_purefuns_slices.go)
+			return t.assignLvalues(x, en, k)
 		}
 		ids = append(ids, id)
+	}
+	if bad := t.sliceCopy(x); bad != "" {
+		return t.unrec(x, bad)
 	}
 	switch x.Tok {
 	case token.DEFINE, token.ASSIGN:
@@ -1499,7 +1681,7 @@ func (t *pfTr) assign(x *ast.AssignStmt, en pfEnv, k func(pfEnv) string) string 
 					if id.Name == "_" {
 						continue
 					}
-					if t.adopt(rs[j], id.Name) {
+					if pfOpaque(rs[j]) || t.adopt(rs[j], id.Name) {
 						e2 = e2.with(t.objOf(id), rs[j])
 						continue
 					}
@@ -1573,12 +1755,15 @@ func (t *pfTr) ret(x *ast.ReturnStmt, en pfEnv) string {
 	sig := t.f.obj.Type().(*types.Signature)
 	n := sig.Results().Len()
 	finish := func(vals []string) string {
-		for i, v := range vals {
-			if v == pfNil || strings.HasPrefix(v, pfInPrefix) || strings.HasPrefix(v, pfFnPrefix) {
-				return t.unrec(x, fmt.Sprintf("result %d is a nil / untranslated value", i))
-			}
+		vals, badRes := t.flattenResults(vals)
+		if badRes != "" {
+			return t.unrec(x, badRes)
 		}
-		_, ex := pfTuple(vals)
+		outs, bad := t.cellOutputs(en)
+		if bad != "" {
+			return t.unrec(x, bad)
+		}
+		_, ex := pfTuple(append(append([]string{}, vals...), outs...))
 		return "Ok " + ex
 	}
 	if len(x.Results) == 0 {
@@ -1636,7 +1821,11 @@ func (t *pfTr) ifChain(x *ast.IfStmt, en pfEnv, kb func(pfEnv) string) string {
 }
 
 func (t *pfTr) ifStmt(x *ast.IfStmt, en pfEnv, k func(pfEnv) string) string {
-	if !pfMayReturn(x) {
+	if x.Init == nil && t.onlyEvents(x) {
+		// if c { emit events }: the condition is evaluated, the branches have no effect on any result
+		return t.expr(x.Cond, en, "", func(string) string { return k(en) })
+	}
+	if !pfMayReturn(x) && !t.noMerge(x) {
 		mark, names := len(t.f.unrec), t.snapshot()
 		mk := func(kb func(pfEnv) string) string { return t.ifChain(x, en, kb) }
 		if r := t.merge(x, []ast.Node{x}, en, mk, k); r != "" {
@@ -1733,7 +1922,7 @@ func (t *pfTr) switchStmtTagged(x *ast.SwitchStmt, tag string, en pfEnv, k func(
 			return "(if " + c + " then\n\x01" + t.block(cc.Body, en, kb) + "\x02\nelse\n\x01" + chain(i+1, en, kb) + "\x02)"
 		})
 	}
-	if !pfMayReturn(x.Body) {
+	if !pfMayReturn(x.Body) && !t.noMerge(x.Body) {
 		mark, names := len(t.f.unrec), t.snapshot()
 		if r := t.merge(x, []ast.Node{x.Body}, en, func(kb func(pfEnv) string) string { return chain(0, en, kb) }, k); r != "" {
 			return r
